@@ -257,3 +257,9 @@ Theorem C02_number_literal_is_nearest_even :
   else f = B754_infinity 53 1024 neg.
 Proof. exact decimal_literal_is_nearest_even. Qed.
 Print Assumptions C02_number_literal_is_nearest_even.
+
+(* the whole text (not only its strings) is UTF-8 whenever it parses: white space, punctuation, numbers and literals are
+   ASCII, and a string literal is UTF-8 between its quotes exactly when the string it denotes is *)
+Theorem C02_parsed_text_is_utf8 : forall t v, parse_value t = Ok v -> utf8_valid t = true.
+Proof. exact parsed_text_is_utf8. Qed.
+Print Assumptions C02_parsed_text_is_utf8.
